@@ -155,7 +155,7 @@ def gen_traverse(w, r, cfg):
 
 def gen_gc(w, r, cfg):
     if w.flavor == 'raw' and r.random() < 0.35:
-        return dict(op='gc', roots=[_ri(r) for _ in range(r.randint(0, 4))])
+        return dict(op='gc', roots=[_ri(r) for _ in range(r.randint(0, 4))], neg=r.randrange(16) if r.random() < 0.5 else 0)
     return dict(op='gc')
 
 
@@ -192,6 +192,8 @@ def gen_finalize(w, r, cfg):
 
 
 def gen_arm_final(w, r, cfg):
+    if cfg.get('line_mode') and r.random() < 0.6:
+        return dict(op='arm_final', line=1, k=r.choice([1, 2, 3, 5, 8, 13, 21, 34, 55, 89, 144, 233, 377]))
     return dict(op='arm_final', k=r.choice([1, 1, 2, 3, 5, 8, 13, 21]))
 
 
